@@ -7,7 +7,7 @@
 
   over an arbitrary carrier `F` with multiplication, division and a square
   root (theorems: any field with a square root on the diagonal entries; driver:
-  exact rationals, a square root existing only for squares).  The CHOLESKY form
+  exact rationals; exact square roots of squares, 20-digit approximations otherwise).  The CHOLESKY form
   (`L @ L.T`, `numpy.linalg.cholesky`) is outside this model.
 
   A matrix is a function `Nat → Nat → F`; `unflat`/`flat` are
@@ -66,12 +66,22 @@ def ratSqrt? (q : Rat) : Option Rat :=
   | some a, some b => some (mkRat a b)
   | _, _ => none
 
+/-- driver only: a rational within 10⁻²⁰ (relative to 1/den) of the square root when it is irrational
+    (comparisons with the float results of the real code are made at 12 significant digits) -/
+def ratSqrtApprox? (q : Rat) : Option Rat :=
+  match ratSqrt? q with
+  | some r => some r
+  | none =>
+    if q.num < 0 then none else
+    let k : Nat := 10 ^ 20
+    some (mkRat (Nat.sqrt (q.num.toNat * q.den * k * k)) (q.den * k))
+
 def optOps : Ops (Option Rat) where
   mul := fun a b => do some ((← a) * (← b))
   div := fun a b => do
     let y ← b
     if y = 0 then none else some ((← a) / y)
-  sqrt := fun a => do ratSqrt? (← a)
+  sqrt := fun a => do ratSqrtApprox? (← a)
 
 def allSome {α : Type} : List (Option α) → Option (List α)
   | [] => some []
